@@ -453,7 +453,7 @@ fn command_lines(full: bool) -> Vec<String> {
     for q in ["quit", "exit", "QUIT", "Exit", "quit ", " quit", "quit now", "quits", "q", "exit()", "qui", "quit\t"] {
         out.push(q.to_string());
     }
-    for l in ["load ok.asm", "load bad.asm", "load missing.asm", "load", "load ", "load  ok.asm", "LOAD ok.asm", "load ok.asm ", "loadok.asm", "load\tok.asm", "load é.asm", "load ./ok.asm"] {
+    for l in ["load ok.asm", "load bad.asm", "load missing.asm", "load", "load ", "load  ok.asm", "LOAD ok.asm", "load ok.asm ", "loadok.asm", "load\tok.asm", "load é.asm", "load ./ok.asm", "load with space.asm", "load  with space.asm", "load with  space.asm", "load sub/inner.asm", "load sub", "load ../ok.asm", "load ok.asm ok.asm"] {
         out.push(l.to_string());
     }
     for junk in ["", " ", "\t", "help", "?", "FC", "=", "= 5", "set", "set ", "unset", "é", "語 = 1", "FC = 1; FD = 2", "FC = 1 FD = 2"] {
@@ -526,6 +526,12 @@ pub fn run() {
     std::fs::write(dir.join("big.asm"), format!("#! mrasm\n{}E:\n JR E\n", (0..39).map(|i| format!("L{}:\n INC R0\n NOP ; {}\n INC R1\n INC R2\n NOP\n DEC R0\n", i, i)).collect::<String>())).unwrap();
     // and one the parser refuses for its 80 labels
     std::fs::write(dir.join("labels.asm"), format!("#! mrasm\n{}E:\n JR E\n", (0..79).map(|i| format!("L{}:\n INC R0\n", i)).collect::<String>())).unwrap();
+    // file names wider than any label of the interface, ASCII and multi-byte
+    std::fs::write(dir.join("a-program-with-a-rather-long-file-name-0123456789-0123456789.asm"), "#! mrasm\n LD R0, 1\nL:\n JR L\n").unwrap();
+    std::fs::write(dir.join("prögrämm-mït-ümläütén-ünd-ñ-ïm-nämën-ÿÿÿÿ.asm"), "#! mrasm\n LD R0, 2\nL:\n JR L\n").unwrap();
+    std::fs::write(dir.join("with space.asm"), "#! mrasm\n LD R0, 3\nL:\n JR L\n").unwrap();
+    let _ = std::fs::create_dir_all(dir.join("sub"));
+    std::fs::write(dir.join("sub").join("inner.asm"), "#! mrasm\n LD R0, 4\nL:\n JR L\n").unwrap();
     std::env::set_current_dir(&dir).expect("chdir to the private directory");
     let cleanup = |d: &std::path::Path| {
         let _ = std::env::set_current_dir("/");
@@ -613,7 +619,7 @@ pub fn run() {
         ];
         let follow: Vec<Vec<K>> = vec![vec![], vec![K::E(Key::Enter), K::E(Key::Enter)], typed("load ok.asm"), typed("FC = 5"), vec![K::Ctrl('r'), K::E(Key::Enter)], typed("show memory")];
         for (iname, init) in &inits {
-            for prog in [None, Some("ok.asm"), Some("long.asm"), Some("big.asm"), Some("labels.asm")] {
+            for prog in [None, Some("ok.asm"), Some("long.asm"), Some("big.asm"), Some("labels.asm"), Some("a-program-with-a-rather-long-file-name-0123456789-0123456789.asm"), Some("prögrämm-mït-ümläütén-ünd-ñ-ïm-nämën-ÿÿÿÿ.asm")] {
                 for f in &follow {
                     startups += 1;
                     let line = format!("startup program={:?} init={} then={}", prog, iname, keys_line(f, 76, 28));
@@ -671,6 +677,8 @@ pub fn run() {
         typed("load long.asm"),
         typed("bogus command"),
         { let mut k = typed("load big.asm"); k.extend(typed("next 700")); k },
+        typed("load a-program-with-a-rather-long-file-name-0123456789-0123456789.asm"),
+        typed("load prögrämm-mït-ümläütén-ünd-ñ-ïm-nämën-ÿÿÿÿ.asm"),
         { let mut k = typed("load big.asm"); k.extend(typed("next 1900")); k.extend(typed("show memory")); k },
         { let mut k = typed("load ok.asm"); k.extend(typed("next 40")); k.extend("set TEMP = 3.3".chars().map(|c| K::E(Key::Char(c)))); k },
     ];
